@@ -1167,6 +1167,15 @@ def rule_destruct_order(ctx):
                 isnull = any(_says_null(q) for q in p.events)
                 if isnull:
                     continue
+                # ... and what it is handed to is a destruction attempt: try_destruct, deferred (mutation sweep 3: try_dealloc
+                # at the depth cap frees the block of a node that was never destructed, with everything below it)
+                wrong = [h for h in hs if h[0] != "defer:" + TRY_DESTRUCT]
+                if wrong:
+                    r.instance("a node that is not destructed now is handed to a deferred try_destruct", False)
+                    r.violate(f, "handoff-kind", "a node whose destruction is put off is handed to %s instead of a deferred "
+                              "try_destruct (it is freed without being destructed, or destructed without its grace period)"
+                              % [h[0] for h in wrong], wrong[0][2].loc())
+                    continue
                 okp = bool(hs) or bool(back)
                 r.instance("a path that does not destruct its node hands it on (%s)" % (
                     [h[0].split("::")[-1] for h in hs] or ("token given back" if back else "nothing")), okp)
